@@ -284,6 +284,9 @@ class Exec(Interp):
         if k == 'agg':
             kind = r['kind']
             ops = [self.operand(st, fr, x) for x in r['ops']]
+            if kind == 'adt':
+                for x in ops:
+                    self.note_saturated_use(st, fr, x, 'stored in %s' % r.get('def'))
             if kind == 'tuple':
                 return ('tuple', tuple(self.alloc(st, x) for x in ops))
             if kind == 'array':
@@ -312,10 +315,18 @@ class Exec(Interp):
             return ORDERING_DISCR[name]
         return names.index(name)
 
+    def note_saturated_use(self, st, fr, v, how):
+        """a value produced by a saturating addition that may still sit at the type's capacity is used as a number (not merely compared)"""
+        sv = self.__dict__.get('sat_vids')
+        if sv and v[0] == 'int' and v[2] in sv and self.rng(st, v[2])[1] >= sv[v[2]][0]:
+            self.__dict__.setdefault('saturated_uses', []).append((strip_inst(fr.fn), sv[v[2]][1], how, fr.body.file))
+
     def cast(self, st, fr, r):
         v = self.operand(st, fr, r['a'])
         kind = r['kind'].split('(')[0]
         to = r['to']
+        if kind in ('IntToFloat', 'IntToInt'):
+            self.note_saturated_use(st, fr, v, 'converted to %s' % to)
         if kind == 'IntToInt':
             if v[0] == 'bool':
                 b = st.bv.get(v[1])
@@ -374,6 +385,8 @@ class Exec(Interp):
         if op in ('Eq', 'Ne', 'Lt', 'Le', 'Gt', 'Ge'):
             val = self.eval_cmp(st, op, x, y)
             return self.mk_bool(st, val, ('cmp', op, x, y))
+        self.note_saturated_use(st, fr, a, 'operand of ' + op)
+        self.note_saturated_use(st, fr, b, 'operand of ' + op)
         la, ha = self.rng(st, x)
         lb, hb = self.rng(st, y)
         tl, th = INT_RANGE.get(ty, (-(2 ** 127), 2 ** 127))
@@ -502,6 +515,8 @@ class Exec(Interp):
 
     def float_bin_plain(self, st, op, a, b):
         if op in ('Eq', 'Ne', 'Lt', 'Le', 'Gt', 'Ge'):
+            if any(v[0] == 'float' and v[3] and v[1] > v[2] for v in (a, b)):
+                return self.mk_bool(st, op == 'Ne')         # an operand that is certainly NaN: every ordered comparison is false
             if a[0] == 'float' and b[0] == 'float' and not a[3] and not b[3]:
                 if op == 'Lt' and a[2] < b[1]:
                     return self.mk_bool(st, True)
@@ -617,6 +632,15 @@ class Exec(Interp):
                 raise Infeasible()
             if op != 'Ne':
                 st.fb[fid] = (lo, hi)
+        elif d[0] == 'irange':
+            _, x, lo, hi, incl, ge, lt = d
+            if truth:
+                self.assume_cmp(st, 'Le', lo, x, True)
+                self.assume_cmp(st, 'Le' if incl else 'Lt', x, hi, True)
+            elif ge is True:
+                self.assume_cmp(st, 'Le' if incl else 'Lt', x, hi, False)      # the lower bound holds anyway: the upper one failed
+            elif lt is True:
+                self.assume_cmp(st, 'Le', lo, x, False)
         elif d[0] == 'frange':
             if truth:
                 lo, hi = st.fb.get(d[1], (-INF, INF))
@@ -900,6 +924,9 @@ class Exec(Interp):
             return (s, t['target'])
 
         res = c.get('res')
+        if res is None and c.get('def') is not None and c['def'] in getattr(self, 'abstract_trait_fns', {}):
+            # required trait method of the type parameter, given an abstract value by the rule (e.g. the price accessors of T: OHLCV)
+            return [ret(st, self.abstract_trait_fns[c['def']])]
         # crate-local callee with a body: interpret
         if res and res.get('local') and res['kind'] == 'Item':
             cb = self.body(res['id'])
@@ -1032,6 +1059,18 @@ class Exec(Interp):
             rv = dv(A[0])
             x = dv(A[1])
             incl = 'Inclusive' in d
+            if rv[0] == 'adt' and x[0] == 'int':
+                fl = next(iter(rv[3].values()))
+                lo = st.cells[fl['start']] if 'start' in fl else None
+                hi = st.cells[fl['end']] if 'end' in fl else None
+                if lo and hi and lo[0] == 'int' and hi[0] == 'int':
+                    ge = self.eval_cmp(st, 'Le', lo[2], x[2])
+                    lt = self.eval_cmp(st, 'Le' if incl else 'Lt', x[2], hi[2])
+                    if ge is True and lt is True:
+                        return [(st, self.mk_bool(st, True))]
+                    if ge is False or lt is False:
+                        return [(st, self.mk_bool(st, False))]
+                    return [(st, self.mk_bool(st, None, ('irange', x[2], lo[2], hi[2], incl, ge, lt)))]
             if rv[0] == 'adt' and x[0] == 'float':
                 fl = next(iter(rv[3].values()))
                 lo = self.fview(st, st.cells[fl['start']]) if 'start' in fl else None
@@ -1089,8 +1128,12 @@ class Exec(Interp):
                 y = A[1][2]
                 lb, hb = self.rng(st, y)
                 if name == 'saturating_add':
+                    if self.sum_upper(st, x, y) > th:
+                        self.__dict__.setdefault('saturations', []).append((strip_inst(fr.fn), name, ty, '%s + %s' % (self.describe(st, A[0]), self.describe(st, A[1])), fr.body.file, line))
                     r = self.mk_int(st, ty, min(la + lb, th), min(self.sum_upper(st, x, y), th))
                     self.idef[r[2]] = ('sat_add', x, y, th)
+                    if self.sum_upper(st, x, y) > th:
+                        self.__dict__.setdefault('sat_vids', {})[r[2]] = (th, 'saturating_add(%s, %s)' % (self.describe(st, A[0]), self.describe(st, A[1])))
                     return [(st, r)]
                 if name == 'saturating_sub':
                     lo, hi = max(la - hb, tl), max(ha - lb, tl)
@@ -1103,6 +1146,8 @@ class Exec(Interp):
                     st.rel.add(('le', r[2], x))
                     return [(st, r)]
                 if name == 'saturating_mul':
+                    if ha * hb > th:
+                        self.__dict__.setdefault('saturations', []).append((strip_inst(fr.fn), name, ty, '%s * %s' % (self.describe(st, A[0]), self.describe(st, A[1])), fr.body.file, line))
                     return [(st, self.mk_int(st, ty, min(la * lb, th), min(ha * hb, th)))]
                 if name in ('checked_sub', 'checked_add', 'checked_mul'):
                     outs = []
@@ -1173,6 +1218,11 @@ class Exec(Interp):
             if name in ('is_finite', 'is_nan', 'is_infinite', 'is_normal', 'is_sign_negative', 'is_sign_positive'):
                 if name == 'is_finite' and not a0[3] and a0[1] > -INF and a0[2] < INF:
                     return [(st, self.mk_bool(st, True))]
+                if a0[3] and a0[1] > a0[2]:
+                    # certainly NaN
+                    return [(st, self.mk_bool(st, name == 'is_nan'))] if name in ('is_nan', 'is_finite', 'is_infinite', 'is_normal') else [(st, self.mk_bool(st))]
+                if name in ('is_finite', 'is_infinite') and not a0[3] and (a0[1] == INF or a0[2] == -INF):
+                    return [(st, self.mk_bool(st, name == 'is_infinite'))]
                 if name == 'is_nan' and not a0[3]:
                     return [(st, self.mk_bool(st, False))]
                 if name == 'is_nan' and fid is not None and fid == getattr(self, 'force_nan', None):
@@ -1350,6 +1400,23 @@ class Exec(Interp):
                 cb = self.find_from_impl(T, U)
                 if cb is not None and chain.count(cb.id) < 3:
                     return self.run_fn(cb, st, [A[0]], chain + [cb.id], depth + 1)
+            if name in ('into', 'from') and not c.get('local'):
+                # std's numeric From impls are lossless: the same mathematical value in the destination type
+                dty = fr.body.local_ty(t['dest']['l']) if not t['dest']['p'] else None
+                if v[0] == 'int' and dty in INT_RANGE:
+                    lo, hi = self.rng(st, v[2])
+                    if INT_RANGE[dty][0] <= lo and hi <= INT_RANGE[dty][1]:
+                        return [(st, ('int', dty, v[2]))]
+                if v[0] == 'bool' and dty in INT_RANGE:
+                    b = st.bv.get(v[1])
+                    iv = self.mk_int(st, dty, 0 if b is None else int(b), 1 if b is None else int(b))
+                    self.idef[iv[2]] = ('boolcast', v[1])
+                    return [(st, iv)]
+                if v[0] == 'int' and dty in ('f64', 'f32'):
+                    lo, hi = self.rng(st, v[2])
+                    return [(st, ('float', float(lo), float(hi), False))]
+                if v[0] == 'float' and dty in ('f64', 'f32') and (dty == 'f64' or v == dv(A[0])):
+                    return [(st, v)]
             if name in ('into', 'from'):
                 # identity conversions and simple wrappers are not modelled: top of destination
                 return [(st, self.dest_top(st, fr, t))]
@@ -1398,6 +1465,15 @@ class Exec(Interp):
                 if self.prove_le(st, bufv[1], A[1][2]):
                     return [(st, self.mk_option(st, None, True))]
                 return [(st, self.mk_option(st, self.dest_payload_top(st, fr, t), True))]
+        if name in ('rotate_left', 'rotate_right') and d.startswith('core::slice::') and len(A) == 2:
+            bufv = dv(A[0])
+            if bufv[0] == 'buf' and A[1][0] == 'int' and self.prove_le(st, A[1][2], bufv[1]):
+                self.discharge('rotate')
+            else:
+                self.oblige('rotate', fr, '%s(mid) requires mid <= len' % name, [self.describe(st, bufv), self.describe(st, A[1])], line, chain)
+            return [(st, self.dest_top(st, fr, t))]
+        if name in ('reverse', 'fill') and d.startswith('core::slice::'):
+            return [(st, self.dest_top(st, fr, t))]
         if name in ('sum', 'product', 'fold', 'count', 'contains', 'mul_add', 'cmp', 'partial_cmp', 'collect', 'map', 'rev', 'zip', 'enumerate',
                     'next', 'copied', 'cloned', 'skip', 'take', 'all', 'any', 'for_each', 'reduce', 'windows', 'step_by', 'first', 'last',
                     'get', 'get_unchecked', 'get_unchecked_mut', 'sort_unstable_by', 'sort_unstable_by_key', 'sort_by', 'sort_by_key', 'sort_unstable', 'sort',
